@@ -45,7 +45,55 @@ class CGen(G.ProgGen):
 
 W = dict(begin=8, write=40, get=14, scan=6, range=1, cur=3, sp=0, rbsp=0, commit=14, rollback=1, drop=2,
          rotate=3, flush=8, flush1=2, compact=10, compactauto=1, reopen=2)
-PROFILES = [dict(name="checkpoint-restore", opts=OPTS, weights=W, keys=["61", "62", "6162", "63"], max_tx=3, length=(70, 180))]
+
+
+def vlog_reuse_prologue(g):
+    """value-log file ids are reused on the restored timeline: after the checkpoint the value log rotates into
+    new files which are read (their handles get cached); after the restore new values of the same shape rotate
+    into the same file ids again and are read back"""
+    rng = g.rng
+    keys = ["6b%02x" % j for j in range(rng.randint(4, 10))]
+    ln = rng.choice([24, 40, 60])
+
+    def batch(ks, seed0):
+        i = g.next_tx
+        g.next_tx += 1
+        g.emit("e2 begin %d rw" % i)
+        for j, k in enumerate(ks):
+            g.emit("e2 set %d %s rep:%d:%d" % (i, k, ln, (seed0 + j) & 255))
+        g.emit("e2 commit %d" % i)
+
+    def read(ks):
+        i = g.next_tx
+        g.next_tx += 1
+        g.emit("e2 begin %d ro" % i)
+        for k in ks:
+            g.emit("e2 get %d %s" % (i, k))
+        g.emit("e2 drop %d" % i)
+
+    batch(keys[:2], 1)
+    g.emit("e2 flush")
+    c = g.next_ck
+    g.next_ck += 1
+    if g.emit("e2 checkpoint %d" % c) != "ok":
+        return
+    g.ckpts.append(c)
+    batch(keys, 50)
+    g.emit("e2 flush")
+    if rng.random() < 0.3:
+        g.emit("e2 reopen")
+    read(keys)
+    g.emit("e2 restore %d" % c)
+    read(keys)
+    batch(keys, 150)
+    g.emit("e2 flush")
+    read(keys)
+
+
+PROFILES = [dict(name="checkpoint-restore", opts=OPTS, weights=W, keys=["61", "62", "6162", "63"], max_tx=3, length=(70, 180)),
+            dict(name="checkpoint-restore", opts=OPTS, weights=W, keys=["61", "62", "6162", "63"], max_tx=3, length=(70, 180)),
+            dict(name="vlog-file-ids-reused", opts=["lc=2,vlog=1,vth=4,vfs=128", "lc=2,vlog=1,vth=4,vfs=256,vck=1", "lc=3,vlog=1,vth=8,vfs=128,cache=1024"],
+                 weights=W, keys=["61", "62", "6b00", "6b01", "6b02"], max_tx=3, length=(5, 40), prologue=vlog_reuse_prologue)]
 
 
 def nontrivial(lines, exp):
